@@ -250,10 +250,58 @@ def jacAnswer (r c d : String) : String :=
     s!"file={showRatList f.data}|{showNatList f.indices}|{showNatList f.indptr}|{f.shape.1}x{f.shape.2} read={showRatList (readSparse f).flatten}"
   | _, _, _ => "bad-jac"
 
-/-- Driver state: `none` after the model raised (frozen until `new`). -/
-abbrev DState := Option (State Pt)
+/-! representation layer: `rnew`, `rstore <rep>`, `rexport a|w`, `rreload`, `rupdate`
+    rep: <f|i|j>|<rats>|<positions of the negative zeros, `-` = none>   (f = float64, i = int64, j = int32)
+    answer: keys=<rep;rep..> x=<idx@rep;..>  (file datasets by index), `E` once the model raised -/
 
-def stepLine (st : DState) (line : String) : DState × String :=
+def parseRep (s : String) : Option Rep :=
+  match s.splitOn "|" with
+  | [d, v, z] =>
+    let dt := if d = "f" then some 0 else if d = "i" then some 1 else if d = "j" then some 2 else none
+    match dt, parseRatList? v, (if z = "-" then some [] else parseNatList? z) with
+    | some dt, some xs, some nz => some ⟨dt, xs, nz⟩
+    | _, _, _ => none
+  | _ => none
+
+def showRep (r : Rep) : String :=
+  (if r.dt = 0 then "f" else if r.dt = 1 then "i" else "j") ++ "|" ++ showRatList r.xs ++ "|" ++
+    (if r.negz.isEmpty then "-" else showNatList r.negz)
+
+/-- The hash of the driver: the values (`array + 0.0` forgets dtype and sign of zero). -/
+def repHash (r : Rep) : List Rat := r.xs
+
+def showRState (s : RState (List Rat)) : String :=
+  "keys=" ++ dash (s.keys.map showRep) ";" ++ " x=" ++
+    dash ((s.fx.mergeSort (fun a b => decide (a.1 ≤ b.1))).map (fun ir => toString ir.1 ++ "@" ++ showRep ir.2)) ";"
+
+/-- Driver state: `none` after the model raised (frozen until `new` / `rnew`). -/
+structure DState where
+  db : Option (State Pt)
+  rep : Option (RState (List Rat))
+
+def rLine (st : DState) (r : Option (RState (List Rat))) : DState × String :=
+  match r with
+  | some s => ({ st with rep := some s }, showRState s)
+  | none => ({ st with rep := none }, "E")
+
+def stepRep (st : DState) (toks : List String) : DState × String :=
+  match toks with
+  | ["rnew"] => ({ st with rep := some RState.init }, "ok")
+  | _ =>
+    match st.rep with
+    | none => (st, "E")
+    | some s =>
+      match toks with
+      | ["rstore", r] =>
+        match parseRep r with
+        | some r => rLine st (some (rstore repHash s r))
+        | none => (st, "bad-op")
+      | ["rexport", m] => rLine st (rexport s (m == "a"))
+      | ["rreload"] => rLine st (rreload repHash s)
+      | ["rupdate"] => rLine st (rupdate repHash s)
+      | _ => (st, "bad-op")
+
+def stepDb (st : Option (State Pt)) (line : String) : Option (State Pt) × String :=
   match tokens line with
   | ["new"] => (some State.init, "ok")
   | ["ds", arg] => (st, dsAnswer arg)
@@ -291,4 +339,15 @@ def stepLine (st : DState) (line : String) : DState × String :=
       | none => (none, "E")
   | _ => (st, "bad-op")
 
-def main : IO Unit := driverLoop stepLine (some State.init)
+def stepLine (st : DState) (line : String) : DState × String :=
+  match tokens line with
+  | t :: rest =>
+    if t.startsWith "r" && t != "reload" then stepRep st (t :: rest)
+    else
+      let (d, a) := stepDb st.db line
+      ({ st with db := d }, a)
+  | [] =>
+    let (d, a) := stepDb st.db line
+    ({ st with db := d }, a)
+
+def main : IO Unit := driverLoop stepLine { db := some State.init, rep := some RState.init }
